@@ -16,7 +16,7 @@ RULE = ("(A) MC_Array: the Array machine as a state graph - Arrays of 2/3-bit in
         "tolist, iteration, equals, copy / a[:], dtype change and back, byteswap, tobytes/tofile; element-wise + - * // % << >> "
         "with scalars, in place and not, comparisons, unary - and abs, & | ^, Array op Array with promotion on integer dtypes up "
         "to 16 bits (results recomputed by TLC); struct-code dtypes and array.array interchange for every typecode. Arrays over power-of-two scaled dtypes (data = scaled encodings, tolist = scaled decodings) "
-        "next to unscaled ones; 0.0 / -0.0 and mode changes within one Array. astype between dtypes of the same kind of value (integer <-> integer, float-valued <-> float-valued incl. the small formats), fromfile with every n around what the source holds (short sources append what there is and raise EOFError), and the attributes of Dtype objects (canonical name, length, bitlength, bits_per_item, is_signed, variable_length, return type). Element-wise + - * / // % with int and float scalars on float-valued Arrays (floats, bfloat, the small formats, mxint), in place and not: what Python's float arithmetic gives for each item is an oracle *input* recorded with the event; TLC judges the encoding of every result in the Array's dtype, the dtype and length of the result, that one failing item fails the whole operation with ValueError and that a failing in-place operator changes nothing. NaN results and Array-op-Array on floats are left unconstrained.")
+        "next to unscaled ones; 0.0 / -0.0 and mode changes within one Array. astype between dtypes of the same kind of value (integer <-> integer, float-valued <-> float-valued incl. the small formats), fromfile with every n around what the source holds (short sources append what there is and raise EOFError), and the attributes of Dtype objects (canonical name, length, bitlength, bits_per_item, is_signed, variable_length, return type). Element-wise + - * / // % with int and float scalars on float-valued Arrays (floats, bfloat, the small formats, mxint), in place and not: what Python's float arithmetic gives for each item is an oracle *input* recorded with the event; TLC judges the encoding of every result in the Array's dtype, the dtype and length of the result, that one failing item fails the whole operation with ValueError and that a failing in-place operator changes nothing. Array op Array with at least one float-valued side likewise (the promoted dtype - floats over integers, then the longer type, then the first - equal lengths, every result encoded in the promoted dtype). NaN results are left unconstrained.")
 
 
 def run(chk):
